@@ -36,7 +36,8 @@ concrete instance.
 The code is modelled **after** the fixes of branch `fix-g5`:
 topk/boltzmann return rows of the untransformed sample; qLCB records its batch and masks chosen
 candidates; a `free` result that is already in `sampled` falls back on the best candidate;
-`CBO._tell` calls `update_next()` when nothing is told.  `Pre` variants of the two C08 paths
+`CBO._tell` calls `update_next()` when nothing is told; `CBO._ask` calls `update_next()` when it
+is called again before any tell.  `Pre` variants of the two C08 paths
 (as on the pinned tree) are kept at the end for the regression witnesses.
 
 History variables (not in the code): `nextFrom` = the candidate list `_next_x` was selected
@@ -116,15 +117,17 @@ structure Sel (α : Type) where
   x : α
   offered : List α
 
-/-- where the optimisation of the acquisition function ended -/
-inductive Pick (τ : Type)
-  | idx (i : Nat)
-  | free (t : τ) (fb : Nat)
+/-- where the optimisation of the acquisition function ended.  The acquisition values are a
+function of the (duplicate-filtered) candidate array the surrogate is evaluated on, so the
+environment supplies `np.argmin` as a function of that array. -/
+inductive Pick (α τ : Type)
+  | idx (sel : List α → Nat)
+  | free (t : τ) (fb : List α → Nat)
 
 /-- environment of one surrogate fit inside `_tell` -/
 structure Fit (α τ : Type) where
   cands : List α
-  pick : Pick τ
+  pick : Pick α τ
 
 /-- the search space as the optimizer uses it -/
 structure Ops (α τ : Type) where
@@ -142,7 +145,12 @@ structure AskEnv (α τ : Type) where
   cands : List α                 -- rvs of `_ask_random_points` / of the qLCB branch
   copyFit : Fit α τ              -- the `_tell(Xi, yi)` inside `copy()` (constant liar)
   steps : List (ClStep α τ)      -- constant-liar iterations
-  orders : List (List Nat)       -- topk: [argsort]; qLCB: one argsort per kappa; boltzmann: [[argmax], draws]
+  /-- index lists computed from the acquisition values on the array they are given — topk:
+  `[argsort]` over `_last_Xsample`; qLCB: one argsort per kappa over the filtered candidates;
+  boltzmann: `[[argmax], multinomial draws]` over `_last_Xsample` -/
+  orders : List α → List (List Nat)
+  /-- the refit inside `update_next()` when `CBO.ask` is called again before any `tell` -/
+  refresh : Fit α τ
 
 section
 variable {α τ : Type} [DecidableEq α]
@@ -168,11 +176,11 @@ def fit (ops : Ops α τ) (s : Opt α) (e : Fit α τ) : Except Err (Opt α) :=
       | some x => .ok x
   let r : Except Err α :=
     match e.pick with
-    | .idx i => fromIdx i
+    | .idx sel => fromIdx (sel f)
     | .free t fb =>
       match ops.fin t with
       | none => .error .finRaises
-      | some x => if s.filterOn && decide (x ∈ s.sampled) then fromIdx fb else .ok x
+      | some x => if s.filterOn && decide (x ∈ s.sampled) then fromIdx (fb f) else .ok x
   match r with
   | .error err => .error err
   | .ok x => .ok { s with nextX := some x, nextFrom := e.cands, last := some f }
@@ -304,11 +312,11 @@ def qLoop (f : List α) : List (List Nat) → List Nat → List α → Except Er
 
 /-- `qLCB` / `qLCBd`: `_next_x` first (recorded), then one masked argmin per kappa over freshly
 sampled, duplicate-filtered candidates (all recorded) -/
-def askQ (s : Opt α) (n : Nat) (x0 : α) (cands : List α) (orders : List (List Nat)) :
+def askQ (s : Opt α) (n : Nat) (x0 : α) (cands : List α) (orders : List α → List (List Nat)) :
     Except Err (Opt α × List (Sel α)) :=
   let smp1 := s.sampled ++ [x0]
   let f := filterDup s.filterOn smp1 cands
-  match qLoop f (orders.take (n - 1)) [] [] with
+  match qLoop f ((orders f).take (n - 1)) [] [] with
   | .error e => .error e
   | .ok X =>
     if X.length = n - 1 then
@@ -356,8 +364,8 @@ def ask (ops : Ops α τ) (s : Opt α) (n : Option Nat) (strat : Strategy) (env 
     else
       match (if strat.isOneShot then s.last else none) with
       | some l =>
-        if strat = .topk then askTopk s n l (env.orders.headD [])
-        else askBoltzmann s n l env.orders
+        if strat = .topk then askTopk s n l ((env.orders l).headD [])
+        else askBoltzmann s n l (env.orders l)
       | none =>
         match (if strat.isQ then s.nextX else none) with
         | some x0 => askQ s n x0 env.cands env.orders
@@ -378,6 +386,7 @@ structure Cbo (α : Type) where
   opt : Opt α
   strat : Strategy
   ignoreFailures : Bool          -- filter_failures == "ignore"
+  asked : Bool := false          -- _asked_since_tell
 
 def cboTold (ignore : Bool) (results : List (α × Res)) : List (α × Obj) :=
   results.filterMap (fun p =>
@@ -386,11 +395,16 @@ def cboTold (ignore : Bool) (results : List (α × Res)) : List (α × Obj) :=
     | .fail => if ignore then none else some (p.1, Obj.fail)
     | .other => none)
 
-/-- `CBO._ask(n)` = `self._opt.ask(n_points=n, strategy=...)` -/
+/-- `CBO._ask(n)`: `update_next()` first when configurations were already asked since the last
+tell, then `self._opt.ask(n_points=n, strategy=...)` -/
 def cboAsk (ops : Ops α τ) (c : Cbo α) (n : Nat) (env : AskEnv α τ) : Except Err (Cbo α × List (Sel α)) :=
-  match ask ops c.opt (some n) c.strat env with
+  let r := if c.asked then updateNext ops c.opt env.refresh else .ok c.opt
+  match r with
   | .error e => .error e
-  | .ok (o, X) => .ok ({ c with opt := o }, X)
+  | .ok o0 =>
+    match ask ops o0 (some n) c.strat env with
+    | .error e => .error e
+    | .ok (o, X) => .ok ({ c with opt := o, asked := true }, X)
 
 /-- `CBO._tell(results)` -/
 def cboTell (ops : Ops α τ) (c : Cbo α) (results : List (α × Res)) (e : Fit α τ) : Except Err (Cbo α) :=
@@ -398,12 +412,33 @@ def cboTell (ops : Ops α τ) (c : Cbo α) (results : List (α × Res)) (e : Fit
   let r := if told.isEmpty then updateNext ops c.opt e else tell ops c.opt told e
   match r with
   | .error err => .error err
-  | .ok o => .ok { c with opt := o }
+  | .ok o => .ok { c with opt := o, asked := false }
 
 /-- a freshly set-up CBO optimizer (`CBO._setup_optimizer`), `filter_duplicated=True`, random
 initial design -/
 def Cbo.start (nInit : Int) (dummy : Bool) (strat : Strategy) (ignoreFailures : Bool) : Cbo α :=
   { opt := Opt.init true dummy nInit [], strat, ignoreFailures }
+
+/-- a call of the public ask/tell interface of the search -/
+inductive Op (α τ : Type)
+  | ask (n : Nat) (env : AskEnv α τ)
+  | tell (results : List (α × Res)) (env : Fit α τ)
+
+/-- any sequence of `Search.ask` / `Search.tell` calls (in any order); returns the final state
+and everything that was proposed, in order -/
+def runOps (ops : Ops α τ) : Cbo α → List (Op α τ) → Except Err (Cbo α × List (Sel α))
+  | c, [] => .ok (c, [])
+  | c, .ask n env :: rest =>
+    match cboAsk ops c n env with
+    | .error e => .error e
+    | .ok (c1, X) =>
+      match runOps ops c1 rest with
+      | .error e => .error e
+      | .ok (c2, Y) => .ok (c2, X ++ Y)
+  | c, .tell results env :: rest =>
+    match cboTell ops c results env with
+    | .error e => .error e
+    | .ok c1 => runOps ops c1 rest
 
 /-- one iteration of `Search._search`: `ask(n)`, evaluate, `tell(results)` -/
 structure Round (α τ : Type) where
@@ -412,19 +447,11 @@ structure Round (α τ : Type) where
   results : List (α × Res)
   tellEnv : Fit α τ
 
-/-- the search loop; returns the final state and everything that was proposed, in order -/
-def run (ops : Ops α τ) : Cbo α → List (Round α τ) → Except Err (Cbo α × List (Sel α))
-  | c, [] => .ok (c, [])
-  | c, r :: rs =>
-    match cboAsk ops c r.n r.askEnv with
-    | .error e => .error e
-    | .ok (c1, X) =>
-      match cboTell ops c1 r.results r.tellEnv with
-      | .error e => .error e
-      | .ok c2 =>
-        match run ops c2 rs with
-        | .error e => .error e
-        | .ok (c3, Y) => .ok (c3, X ++ Y)
+def Round.ops (r : Round α τ) : List (Op α τ) := [.ask r.n r.askEnv, .tell r.results r.tellEnv]
+
+/-- the search loop `Search._search` (ask, evaluate, tell, repeat) -/
+def run (ops : Ops α τ) (c : Cbo α) (rounds : List (Round α τ)) : Except Err (Cbo α × List (Sel α)) :=
+  runOps ops c (rounds.flatMap Round.ops)
 
 /-! ### executable freshness check -/
 
